@@ -71,7 +71,7 @@ func ReadResponse(r io.Reader, apiKey ApiKey, apiVersion int16) (correlationID i
 		if d.lengthOutOfBounds(taggedCount) {
 			taggedCount = 0
 		}
-		for i := 0; i < taggedCount; i++ {
+		for i := 0; i < taggedCount && d.err == nil; i++ {
 			d.readUnsignedVarInt() // tagID
 			size := d.readUnsignedVarInt()
 
